@@ -8,7 +8,7 @@ from numbers import Number
 
 import numpy as np
 import rowan
-from scipy.spatial import ConvexHull
+from scipy.spatial import ConvexHull, QhullError
 
 from .polyhedron import Polyhedron
 from .sphere import Sphere
@@ -92,7 +92,12 @@ class ConvexPolyhedron(Polyhedron):
         if self._vertices.ndim != 2 or self._vertices.shape[1] != 3:
             raise ValueError("Vertices must be specified as an Nx3 array.")
         self._ndim = self._vertices.shape[1]
-        hull = ConvexHull(self._vertices)
+        try:
+            hull = ConvexHull(self._vertices)
+        except QhullError as e:
+            raise ValueError(
+                "Input vertices do not span a three-dimensional convex hull."
+            ) from e
         self._faces_are_convex = True
 
         if not len(hull.vertices) == len(self._vertices):
